@@ -106,6 +106,21 @@ contract(D + "treg.py::RegulatoryTCell._downgrade_action", "C17", raises=[],
          requires=["action != ResponseAction.ALERT"],
          ensures={"one-step": "rank(result) == max(rank(action) - 1, 0)"})
 
+# training installs the trained baseline as THE baseline the agent's watcher judges against (first training and every re-training alike):
+# "immediately after successful training on a window, inspecting that same window reports no threat" needs the watcher to use that profile
+shape("ImmuneSystemT", displays="dict:str,obj:MHCDisplay", tcells="dict:str,obj:TCell", profiles="dict:str,obj:BaselineProfile", thymus="callback",
+      min_training_samples="int")
+TRAIN_LOOP = "for _ in range(self.min_training_samples)"
+contract(D + "immune_system.py::ImmuneSystem.train_agent", "C17", self_type="ImmuneSystemT", raises=["ValueError"],
+         callbacks={"MHCDisplay.generate_peptide": {"returns": "opt:obj:MHCPeptide", "raises": ()},
+                    "self.thymus.train": {"returns": "tuple:opt:obj:BaselineProfile;enum:SelectionResult", "raises": ()}},
+         loops={TRAIN_LOOP: {"invariant": ["len(samples) == _k"], "types": {"samples": "list:obj:MHCPeptide"}}},
+         ensures={"watcher-judges-against-the-trained-baseline": "implies(result == SelectionResult.POSITIVE and returned('thymus.train')[0] is not None, "
+                                                                 "agent_id in self.tcells and self.tcells[agent_id].profile is returned('thymus.train')[0] "
+                                                                 "and self.profiles[agent_id] is returned('thymus.train')[0])",
+                  "failed-training-leaves-the-watcher": "implies(result != SelectionResult.POSITIVE, len(self.tcells) == len(old(self).tcells))"},
+         xensures={"only-unregistered-agents-are-refused": "agent_id not in old(self).displays"})
+
 contract(D + "immune_system.py::ImmuneSystem.inspect", "C17",
          callbacks={"MHCDisplay.generate_peptide": {"returns": "opt:obj:MHCPeptide", "raises": ()},
                     "ImmuneMemory.recall_by_hashes": {"returns": "opt:obj:ThreatSignature", "raises": ()},
